@@ -1,35 +1,56 @@
-"""Names for the constructs that minimal failing inputs boil down to (see FINDINGS.md for
-what each one is).  A rule = (class, kinds or None, regex on the CANONICAL minimal source
-produced by triage.canonical).  First match wins; anything else is reported as
-`unclassified:<canonical minimal source>` (still a stable key: same minimal input, same key).
-"""
+"""Names for the constructs that minimal failing inputs boil down to (FINDINGS.md says what
+each one is).  A rule = (class, kinds or None, signature head or None, regex on the CANONICAL
+minimal source produced by triage.canonical).  First match wins; anything else is reported
+as `unclassified:<canonical minimal source>` (still a stable key: same minimal input, same
+key)."""
 import re
 
-OP = r"(?:\+|-|\*|/|%|==|!=|<=|>=|<|>|&&|\|\||\|>)"
+OP = r"(?:↵?(?:\+|-|\*|/|%|==|!=|<=|>=|<|>|&&|\|\||\|>))"
+CM = r"(?:///? \S+\s*)"  # an abstracted comment token
+COMMENTS = ("comments-lost-or-reordered",)
 
 _RULES = [
+    # ---- comments
+    ("comment-in-record-pattern-lost", COMMENTS, "lost", r"[A-Z][\w.]*\s*" + CM + r"*\{[^{}]*// |[A-Z][\w.]*\s*// \S+\s*(?:[A-Z]\w*\s*)?\{"),
+    ("doc-comment-after-decorator", None, None, r"@\s*" + CM + r"*\w+(?:\(\w+\))?\s*" + CM + r"*/// "),
+    ("doc-comment-moved-into-fn-type", COMMENTS, None, r"/// \S+\s+" + CM + r"*(?:[a-z_]\w*\s*){0,2}" + CM + r"*:[^,{}]*?fn\("),
+    ("stray-doc-comment-relocated", COMMENTS, None, r"\{[^}]*/// (?!.*\bexpect\b)"),
+    ("comment-between-imports", None, None, r"^\s*(?:////? \S+\s*)*use\b.*// .*\buse\b|^\s*(?:// \S+\s*)+use\b"),
     # ---- captures
-    ("pipe-capture-labelled-hole", None, r"\|>\s*[\w.]+\s*[({][^(){}]*\b[a-z]\w* : _"),
-    ("pipe-capture-two-holes", None, r"\|>\s*[\w.]+\(_\w*, _"),
-    ("record-capture-hole", None, r"\b(?:[a-z]\w*\.)?(?:[A-Z]\w*\.)?[A-Z]\w* \{[^{}]*\b[a-z]\w* : _\w*"),
-    ("capture-hole-name-truncated", ("ast-changed", "not-idempotent"), r"[(,:]\s*_\w*[A-Za-z0-9]_\w+"),
+    ("pipe-capture-labelled-hole", None, None, r"\|>\s*[\w.]+\s*[({][^(){}]*\b[a-z]\w* : _"),
+    ("pipe-capture-two-holes", None, None, r"\|>\s*[\w.]+\(_\w*(?:, [^()]*)?, _\w*\s*[,)]"),
+    ("record-capture-hole", None, None, r"\b(?:[a-z]\w*\.)?(?:[A-Z]\w*\.)?[A-Z]\w* \{[^{}]*\b[a-z]\w* : _\w*"),
+    ("capture-labelled-hole-label-dropped", ("ast-changed",), None, r"[\w.]\([a-z]\w* : _\w*, "),
+    ("capture-hole-name-truncated", ("ast-changed", "not-idempotent"), None, r"[(,:]\s*_\w*[A-Za-z0-9]_\w+"),
+    # ---- operators as values
+    ("anonymous-minus-line-break", ("output-does-not-parse",), None, r"[(,]\s*-\s*,"),
+    ("anonymous-operator-parens-dropped", None, None, r"↵\(\s*" + OP + r"\s*\)"),
     # ---- things that lose their parentheses / braces
-    ("empty-logical-chain", None, r"\b(?:and|or) \{ \}"),
-    ("question-mark-parens-dropped", None, r"\([^()]*\?\)\s*(?:\(|\.|\?)"),
-    ("fail-todo-parens-dropped", None, r"\((?:fail|todo)\b[^()]*\)|\{ (?:fail|todo)\b[^{}]*\}|\btrace (?:fail|todo)\b"),
-    ("trace-braces-dropped", None, r"[({]\s*trace\b"),
-    ("chain-head-parens-dropped", None, r"\((?:- |! |[^()]*\s" + OP + r"\s)[^()]*\)\s*(?:\(|\.\w)"),
+    ("empty-logical-chain", None, None, r"\b(?:and|or) \{ \}"),
+    ("question-mark-parens-dropped", None, None, r"\([^()]*\?\)\s*(?:\(|\.|\?)"),
+    ("fail-todo-parens-dropped", None, None, r"\((?:fail|todo)\b[^()]*\)|\{ (?:fail|todo)\b[^{}]*\}|\btrace (?:fail|todo)\b"),
+    ("trace-braces-dropped", None, None, r"[({]\s*trace\b"),
+    ("tuple-index-on-broken-pipeline", ("output-does-not-parse",), None, r"\([^()]*↵\|>[^()]*\)\.\d+(?:st|nd|rd|th)"),
+    ("chain-head-parens-dropped", None, None, r"[({]\s*(?:- |! |[^(){}]*\s" + OP + r"\s).*?[)}]\s*(?:\(|\.\w)"),
     # ---- patterns / literals / definitions
-    ("list-tail-discard-name-dropped", None, r"\.\._\w+\]"),
-    ("int-underscore-zero-group", None, r"(?<![\w])0\d*_\d"),
-    ("empty-data-type", None, r"\btype [A-Z]\w*(?:<[^>]*>)? \{ \}"),
+    ("expect-true-pattern-arguments-dropped", None, None, r"\bexpect True\s*[({]"),
+    ("pair-pattern-trailing-comma", None, None, r"\bPair\([^()]*, \)"),
+    ("list-tail-discard-name-dropped", None, None, r"\.\._\w+\]"),
+    ("int-underscore-zero-group", None, None, r"(?<![\w])0\d*_\d"),
+    ("empty-bytearray-broken-line", ("output-does-not-parse",), None, r"#\[\]"),
+    ("lambda-nested-block-assignment-layout", ("not-idempotent",), None, r"fn\([^()]*\)\s*(?:->[^{]*)?\{ \{ (?:let|expect)\b"),
+    ("comment-before-module-comments-layout", ("not-idempotent",), None, r"^\s*// \S+\s*//// "),
+    ("comment-at-end-of-module-blank-lines-layout", ("not-idempotent",), None, r"// \S+\s*⏎⏎\s*$"),
+    ("empty-data-type", None, None, r"\btype [A-Z]\w*(?:<[^>]*>)? \{ \}"),
 ]
-RULES = [(n, k, re.compile(p)) for n, k, p in _RULES]
+RULES = [(n, k, h, re.compile(p, re.S)) for n, k, h, p in _RULES]
 
 
-def classify(kind, canon):
-    for name, kinds, pat in RULES:
+def classify(kind, canon, sig=()):
+    for name, kinds, head, pat in RULES:
         if kinds and kind not in kinds:
+            continue
+        if head and (not sig or sig[0] != head):
             continue
         if pat.search(canon):
             return name
